@@ -376,14 +376,20 @@ def run_case_both(family, ops, tag):
         for o in ops:
             f.write("I " + o + "\n")
     ip, mp = rp + ".impl", rp + ".model"
-    run_impl(family, ["--replay", rp], ip, timeout=600)
-    impl = list(iter_cases(ip, False))
+    try:
+        run_impl(family, ["--replay", rp], ip, timeout=600)
+    except subprocess.TimeoutExpired:
+        pass  # what it flushed before is still read below
+    impl = list(iter_cases(ip, False)) if os.path.exists(ip) else []
     iobs, viols = (impl[0][2], impl[0][3]) if impl else ([], [])
     mobs = None
     if os.path.exists(MBIN):
-        run_model(family, ip, mp, timeout=600)
-        mod = list(iter_cases(mp, False))
-        mobs = mod[0][2] if mod else []
+        try:
+            run_model(family, ip, mp, timeout=600)
+            mod = list(iter_cases(mp, False))
+            mobs = mod[0][2] if mod else []
+        except subprocess.TimeoutExpired:
+            mobs = ["model timed out"]  # a replay must never take the whole check down
     for p in (rp, ip, mp):
         try:
             os.remove(p)
